@@ -352,7 +352,7 @@ func ruleC04c(c *Ctx, rule string) {
 func init() {
 	register(&PropSpec{
 		ID:          "C04",
-		Explanation: "Decides the mechanism 'no query-path function can write bytes of a stored sequence': C04 holds if stored sequences are unreachable for writes from the read path. Two structural clauses are evaluated and combined: (P) purity — no module function writes through a sequence it was handed (interprocedural write-effect summaries over all module functions, 100+ obligations), and (I) isolation — scans run over a private deep copy of the memstore (Tree.Copy stores only fresh data; memstore.copy and rowStore.iterate use it) and over freshly read file rows. A violation is reported when BOTH fail (a write can then reach stored bytes), or when rowStore.iterate scans a memstore snapshot that was not taken by that very call (a cached or live snapshot makes one query's execution visible to later queries); a failure of purity or copy-depth alone is reported by C05/C17 resp. C18.",
+		Explanation: "Decides the mechanism 'no query-path function can write bytes of a stored sequence': C04 holds if stored sequences are unreachable for writes from the read path. Two structural clauses are evaluated and combined: (P) purity — no module function writes through a sequence it was handed (interprocedural write-effect summaries over all module functions, 100+ obligations), and (I) isolation — scans run over a private deep copy of the memstore (Tree.Copy stores only fresh data; memstore.copy and rowStore.iterate use it) and over freshly read file rows. A violation is reported when BOTH fail (a write can then reach stored bytes), or when rowStore.iterate scans a memstore snapshot that was not taken by that very call (a cached or live snapshot makes one query's execution visible to later queries); a failure of purity or copy-depth alone is reported by C05/C17 resp. C18. Further clauses: the read path never forces a flush, never renames/removes/creates files, and no expression method rewrites its receiver (expressions are shared between table definition and query plans).",
 		NotDecided:  []string{"flows that lose their origin through heap fields/channels (covered indirectly: the same callees are reached by tracked flows)", "the file store's immutability on disk (files are only replaced by rename)"},
 		Assumptions: []string{"external pure-reader table (io.Writer.Write, binary.*.Uint*, bytemap accessors, grpc SendMsg, msgpack) follows the documented contracts", "VTA call graph over-approximates dynamic calls"},
 		Rules: []func(*Ctx){func(c *Ctx) {
